@@ -575,6 +575,7 @@ pub fn raw_alphabet() -> Vec<(&'static str, Vec<u8>)> {
     let short_syn = |len: usize| -> Vec<u8> { let full = syn(uflow::PROTOCOL_VERSION, 0x5151, 1000, 1_000_000); let mut b = full[..len - 4].to_vec(); b.extend_from_slice(&[0; 4]); crc_fix(b) };
     vec![
         ("valid SYN", syn(uflow::PROTOCOL_VERSION, 0x5151, 1000, 1_000_000)),
+        ("empty datagram", vec![]),
         ("SYN other nonce", syn(uflow::PROTOCOL_VERSION, 0x6262, 1000, 1_000_000)),
         ("SYN 1471 bytes", short_syn(1471)),
         ("SYN 100 bytes", short_syn(100)),
@@ -632,6 +633,27 @@ pub fn c18(quick: bool) -> PropRun {
         }
     }
     scs.push(raw_handshake_scenario("C18", 16_000));
+    // every ordered pair of letters arriving in the same round from two different addresses (the server reads them in one step(), one
+    // after the other into the same buffer): what the first one was must not rub off on the second
+    {
+        let name = "C18.same-round-pairs|alphabet x alphabet|two addresses".to_string();
+        let run = move |ch: &mut Chooser| -> ExecResult {
+            let alpha = raw_alphabet();
+            let a = ch.free(alpha.len()); let b = ch.free(alpha.len());
+            let cfg = EwCfg::new(1);
+            let script = vec![at(2, Act::Raw(0, alpha[a].1.clone())), at(2, Act::Raw(1, alpha[b].1.clone()))];
+            let mut env = EwEnv::basic(0, 60);
+            env.fates = DF_NONE; env.deltas = &[500]; env.fair_delta = 500; env.stop_when_done = false;
+            let mut c0 = Chooser::new(vec![], vec![]);
+            let tr = run_ew(&cfg, &script, &env, &mut c0);
+            if crate::lwprops::verbose() { print_ew(&cfg, &tr); }
+            let violations = oracle_c18(&cfg, &tr, 2);
+            let replies = tr.wire.iter().filter(|d| d.src == saddr() && d.dst.port() >= 45000).count() as u64;
+            ExecResult { violations, panic: None, outcome: crate::explore::hash_bytes(ew_outcome(&tr) ^ replies << 20, format!("{}/{}", alpha[a].0, alpha[b].0).as_bytes()), states: ew_states(&tr), transitions: tr.obs.len() as u64, witnesses: (replies > 0) as u64 | ((replies > 3) as u64) << 1,
+                         sample: if a == 0 && b == 1 { Some(format!("'{}' from raw0 and '{}' from raw1 in the same round: {} datagrams sent back", alpha[a].0, alpha[b].0, replies)) } else { None } }
+        };
+        scs.push(Scenario { name, d: 0, run: Box::new(run) });
+    }
     // one or three valid connection requests from an address that never answers, against servers stepping slowly (the resend timers are
     // then handled late) and servers configured with long active time-outs, watched for seven minutes
     {
